@@ -153,8 +153,11 @@ PROPS = {
                      "on/nativeOn under transformOn is an attribute value: strict source order"],
     ),
     "C13": dict(
-        mc=[dict(module="MC_C13")], judge="Judge_C13", want=["js"],
-        rule="attribute sequences up to the bound over {static string, value-less, constant number/array/object, undefined, "
+        mc=[dict(module="MC_C13F", heap="10g"), dict(module="MC_C13")], judge="Judge_C13", want=["js"],
+        rule="TLC model-checks AttrsFold.tla (the transform_attrs fold, one step per attribute) over every enumerated attribute "
+             "sequence — AgreesWithOperator, Sound (the model's own flags satisfy the property's clauses), DynNamesDistinct, "
+             "NeverNegative, Monotone — and every real run's `attrs_done` hook event is validated against the model's prediction. "
+             "Inputs: attribute sequences up to the bound over {static string, value-less, constant number/array/object, undefined, "
              "dynamic identifier, call, object with a dynamic member} x {class, style, key, ref, onClick, other listener, plain, id, "
              "namespaced, onUpdate:modelValue} plus {spread, computed-key v-model, plain and :arg v-model, directive, v-show, "
              "v-html, v-text, transformOn `on` object} on div / input / component, exhaustively; plus nested component trees "
